@@ -17,7 +17,7 @@ FAULT_OUT = ['nan', 'pinf', 'ninf', 'warn', 'exc', 'zero']
 WRITE_MODES = ['inplace', 'inplace', 'inplace', 'list-attr', 'list-item', 'replace_values']
 
 
-EXC_CAUSE = {'exc': 'Boom', 'excse': 'SolutionError'}     # raising outcomes / hook faults -> class of the chained original
+EXC_CAUSE = {'exc': 'Boom', 'excse': 'SolutionError', 'excfpe': 'FloatingPointError'}     # raising outcomes / hook faults -> class of the chained original
 
 
 class Boom(Exception):
@@ -223,6 +223,18 @@ def make_span(kind, n):
 _HOOKLESS = {}
 
 
+def effective_faults(case):
+    """(script, before_fault, after_fault) as the reference must read them under the caller's NumPy error state: with
+    np.errstate(all='ignore') a warning-raising operation is just an operation that yields -inf, with all='raise' it is a Python
+    exception (FloatingPointError) like any other."""
+    es = case.get('caller_errstate')
+    in_pass = {'ignore': 'ninf', 'raise': 'excfpe'}.get(es, 'warn')
+    in_hook = {'ignore': None, 'raise': 'excfpe'}.get(es, 'warn')
+    script = [tuple(in_pass if o == 'warn' else o for o in p) for p in case['script']]
+    fix = lambda f: in_hook if f == 'warn' else f      # noqa: E731
+    return script, fix(case.get('before_fault')), fix(case.get('after_fault'))
+
+
 def run_solve_t(Model, case):
     """Run one scripted single-period solve on the real solver and collect observations."""
     n = case.get('n', 4)
@@ -297,7 +309,9 @@ def run_solve_t(Model, case):
             if kw[k] in (0, 1):
                 kw[k] = bool(kw[k])
     obs = {}
-    with warnings.catch_warnings():
+    import contextlib
+    es = case.get('caller_errstate')
+    with warnings.catch_warnings(), (np.errstate(all=es) if es else contextlib.nullcontext()):
         # the caller's own warnings set-up (process-wide filters such as -W error) is none of the solver's business: the outcome is the same
         warnings.simplefilter(case.get('caller_filter') or 'ignore')
         try:
